@@ -442,6 +442,32 @@ def replay_hist(ctx, sysm, hist):
     return o
 
 
+def pristine(f):
+    """run f() in a forked child, so that nothing it does to module-level state survives, and - when called before this
+    process has used the library - so that it starts from the import-time state"""
+    import os, pickle
+    r, w = os.pipe()
+    pid = os.fork()
+    if pid == 0:
+        try:
+            os.close(r)
+            out = pickle.dumps(f())
+        except BaseException as e:      # noqa
+            out = pickle.dumps(('exc', 'harness:' + type(e).__name__))
+        os.write(w, out)
+        os._exit(0)
+    os.close(w)
+    buf = b''
+    while True:
+        c = os.read(r, 1 << 16)
+        if not c:
+            break
+        buf += c
+    os.close(r)
+    os.waitpid(pid, 0)
+    return pickle.loads(buf)
+
+
 def hsub(name, systems, depth, bound=''):
     """Sub for a family of H systems: `systems(tier)` -> dict key -> HSystem,
     `depth(tier)` -> int.  One point per system (each BFS runs in one worker)."""
